@@ -40,26 +40,31 @@ def run_one(sid, tier="quick"):
     work = os.path.join(SCRATCH, sid.replace("/", "_"))
     shutil.rmtree(work, ignore_errors=True)
     os.makedirs(SCRATCH, exist_ok=True)
-    sh(f"rsync -a --exclude .git /repo/ {work}/")
-    r = sh(f"patch -p1 --no-backup-if-mismatch < {os.path.join(d, 'patch.diff')}", cwd=work)
+    # apply in a throw-away git worktree of HEAD: first strictly (no fuzz: `patch` with offsets can hit a look-alike hunk), then as a
+    # three-way merge (the blobs named in the patch's index lines are in /repo's object store) for patches written against an
+    # older commit; a patch without index lines (hand-made diff) falls back to `patch` without fuzz
+    wt = work + ".wt"
+    sh(f"git -C /repo worktree remove --force {wt}")
+    sh(f"git -C /repo worktree add --detach {wt} HEAD")
+    pf = os.path.join(d, "patch.diff")
+    r = sh(f"git -C {wt} apply {pf}")
+    how = "exact"
     if r.returncode != 0:
-        # the patch was written against an older commit and later fixes touched the same lines: let git merge it three-way
-        # (the blobs named in the patch's index lines are in /repo's object store) in a throw-away worktree of HEAD
+        r = sh(f"git -C {wt} apply -3 {pf}")
+        how = "3-way"
+        if r.returncode != 0 or sh(f"git -C {wt} diff --name-only --diff-filter=U").stdout.strip():
+            sh(f"git -C {wt} reset -q --hard HEAD && git -C {wt} clean -fdq")
+            r = sh(f"patch -p1 -F0 --no-backup-if-mismatch < {pf}", cwd=wt)
+            how = "patch -F0"
+    ok = r.returncode == 0
+    if ok:
+        sh(f"rsync -a --exclude .git {wt}/ {work}/")
+    sh(f"git -C /repo worktree remove --force {wt}")
+    sh("git -C /repo worktree prune")
+    if not ok:
         shutil.rmtree(work, ignore_errors=True)
-        wt = work + ".wt"
-        sh(f"git -C /repo worktree remove --force {wt}")
-        sh(f"git -C /repo worktree add --detach {wt} HEAD")
-        r3 = sh(f"git -C {wt} apply -3 {os.path.join(d, 'patch.diff')}")
-        conflicted = sh(f"git -C {wt} diff --name-only --diff-filter=U").stdout.strip()
-        ok3 = r3.returncode == 0 and not conflicted
-        if ok3:
-            sh(f"rsync -a --exclude .git {wt}/ {work}/")
-        sh(f"git -C /repo worktree remove --force {wt}")
-        sh("git -C /repo worktree prune")
-        if not ok3:
-            shutil.rmtree(work, ignore_errors=True)
-            return {"id": sid, "applied": False, "log": (r.stdout + r.stderr)[-300:] + " | 3-way: " + (r3.stdout + r3.stderr)[-300:]}
-    res = {"id": sid, "applied": True, "property": meta["property"], "checks": {}}
+        return {"id": sid, "applied": False, "log": (r.stdout + r.stderr)[-400:]}
+    res = {"id": sid, "applied": True, "applied_how": how, "property": meta["property"], "checks": {}}
     demo = os.path.join(d, "demo.py")
     if os.path.exists(demo):
         rd = sh(f"PYTHONPATH={work}/src /venv/bin/python {demo}")
@@ -119,7 +124,9 @@ def main():
                           f"FALSE ALARM / ERROR in {noisy}" if r.get("applied") else "PATCH-FAILED", flush=True)
                     json.dump(results, open(out_path, "w"), indent=1)
                     continue
-                print(sid, "CAUGHT" if caught else "MISSED" if r.get("applied") else "PATCH-FAILED",
+                stale = r.get("applied") and r.get("demo_fails_with_patch") is False
+                print(sid, "CAUGHT" if caught else "STALE (its own demonstration no longer fails with the patch)" if stale
+                      else "MISSED" if r.get("applied") else "PATCH-FAILED",
                       {p: (c["exit"], "concrete" if c["concrete"] else "") for p, c in r.get("checks", {}).items()}, flush=True)
                 json.dump(results, open(out_path, "w"), indent=1)
         shutil.rmtree(SCRATCH, ignore_errors=True)
